@@ -11,7 +11,7 @@ import random
 
 from .. import wire, gen, common, instrument
 from ..core import call, sm, X, Report, write_evidence, Batch, parse_answer
-from ..engine import NumCase, ExprCase, judge_numeric, judge_expr, answers_agree, out_of_range, _num_answer
+from ..engine import NumCase, ExprCase, judge_numeric, judge_expr, answers_agree, out_of_range, _num_answer, widen
 
 PID = "C08"
 
@@ -168,9 +168,13 @@ def check_cases(cases: list[dict], rep: Report, known: dict) -> None:
         vb = Batch()
         ii = [(vb.ask(f"F{j} eval {c['e']} {ptxt}"), vb.ask(f"F{j} eval {wire.expr(out)} {ptxt}")) for j in (1, 2, 3)]
         vb.run()
-        if any(not answers_agree(_num_answer(vb[a]), a_in) or not answers_agree(_num_answer(vb[b]), a_out) for a, b in ii) \
-                and "exact" not in case:
+        vin = [_num_answer(vb[a]) for a, _ in ii]
+        vout = [_num_answer(vb[b]) for _, b in ii]
+        if "exact" not in case and (any(not answers_agree(v, a_in) for v in vin) or any(not answers_agree(v, a_out) for v in vout)):
             rep.skip("rounding-ambiguous")
+            continue
+        if "exact" not in case and a_out[0] == "ok" and answers_agree(widen(a_in, vin), widen(a_out, vout)):
+            rep.count("semantic", "preserved-after-widening")
             continue
         if k1_explains(c, label, ptxt):
             rep.known("K1", "NthRoot(NthPower(u, m), n) with n, m even rewritten to NthPower(NthRoot(u, n), m): value or domain changes for negative u",
